@@ -91,6 +91,13 @@ def run(tier):
         scs.append({"id": i, "seed": rnd.randrange(1 << 30), "msgs": [5 if k == target else rnd.choice([0, 1]) for k in range(n)],
                     "pre": [0] * n, "burst": True, "delay": [0 if k == target else 6000 for k in range(n)],
                     "consumer": [rnd.choice(["block_on", "manual"]) for _ in range(n)]})
+    # lone conversions on one CPU with the converting thread in the idle scheduling class: whatever the conversion does
+    # AFTER it has woken the routing thread happens only once that thread has finished its pass and sleeps again
+    for i in range(len(scs), len(scs) + (8 if tier == "quick" else 60)):
+        n = rnd.choice([1, 1, 2])
+        m = [rnd.choice([1, 2, 5]) for _ in range(n)]
+        scs.append({"id": i, "seed": rnd.randrange(1 << 30), "msgs": m, "pre": list(m), "onecpu": True,
+                    "consumer": ["manual"] * n})
     nsc = len(scs)
     validated = 0
     B = 100 if tier == "quick" else 250
